@@ -22,7 +22,7 @@ for f in sorted(glob.glob(os.path.join(ROOT, "seeded", "*", "meta.json"))):
     own_caught = any(r["exit"] == 1 for r in runs.get(own, []))
     other = sorted(pid for pid, rs in runs.items() if pid != own and any(r["exit"] == 1 for r in rs))
     if not caught and m.get("outside_the_quantifier"):
-        status = "not reported (outside the property's quantifier, see 14.2 and 14.7)"
+        status = "not reported (outside the property's quantifier, see 14.2, 14.7 and 14.9)"
     if caught and missed_first:
         status = "caught after strengthening"
     if caught and not own_caught and other:
